@@ -236,6 +236,10 @@ def main():
         print(f"VIOLATION property={prop} replay={replay_path} no-failing-input-found")
         status = 1
 
+    if status == 0:
+        stale = VERIF / "replays" / f"{prop}-{tier}-{seed}.json"
+        if stale.exists():
+            stale.unlink()
     # ---- evidence
     wall = time.time() - t_start
     corr_eval = sum(c["cases"] for c in ctx.corr.values())
